@@ -10,6 +10,7 @@ import (
 	"fmt"
 	"math"
 	"math/big"
+	"regexp"
 	"strings"
 	"time"
 
@@ -1733,6 +1734,10 @@ func (d *drv) serAttrStream() {
 			}
 		}
 		run("ParseSerializationAttr", func() error { _, err := verifiable.ParseSerializationAttr(attr); return err })
+		if len(attr) <= 300 {
+			po := guard(watchdog, func() error { _, err := verifiable.ParseSerializationAttr(attr); return err })
+			d.addCase(func(f *coqgen.File) string { return "ISerAttr " + f.Str(attr) }, po.Class, input)
+		}
 		inner := map[string]any{"@version": 1.1, "@protected": true, "id": "@id", "type": "@type", "iden3_serialization": attr,
 			"xsd": "http://www.w3.org/2001/XMLSchema#", "items": map[string]any{"@id": "urn:c12:items", "@type": "xsd:integer"},
 			"price": map[string]any{"@id": "urn:c12:price", "@type": "xsd:integer"}}
@@ -1846,9 +1851,36 @@ func (d *drv) degeneratePathStream() {
 			d.rep.Fail("c12-generator", "degenerate-shape document not merklized: "+mo.Msg, string(sdoc))
 		}
 	}
+	var docAny any
+	_ = json.Unmarshal(doc, &docAny)
+	docDef := &sharedDef{name: "shape_doc", render: func(f *coqgen.File) string {
+		var ts []string
+		for _, t := range append(append([]string{}, shapeTerms...), "id", "type") {
+			ts = append(ts, f.Str(t))
+		}
+		// two definitions in one: the defined terms first
+		return jvCoq(f, docAny) + ".\nDefinition shape_defined := [" + strings.Join(ts, ";") + "]"
+	}}
 	for _, ps := range shapePaths() {
 		ps := ps
 		input := map[string]any{"stream": "degenerate-path", "path": ps, "doc": string(doc)}
+		// the skeleton path_from_doc on the same document and segments
+		{
+			po := guard(watchdog, func() error { _, err := merklize.NewPathFromDocument(doc, ps); return err })
+			segs := strings.Split(ps, ".")
+			d.addCaseDef(docDef, func(f *coqgen.File) string {
+				var l []string
+				for _, sg := range segs {
+					if digitsRE.MatchString(sg) {
+						z, _ := new(big.Int).SetString(sg, 10)
+						l = append(l, "RSNum "+coqgen.SNum(z))
+					} else {
+						l = append(l, "RSName "+f.Str(sg))
+					}
+				}
+				return fmt.Sprintf("IDocPath shape_defined shape_doc [%s]", strings.Join(l, ";"))
+			}, po.Class, input)
+		}
 		for name, f := range map[string]func() error{
 			"NewPathFromDocument": func() error { _, err := merklize.NewPathFromDocument(doc, ps); return err },
 			"Options.NewPathFromDocument": func() error {
@@ -2068,4 +2100,33 @@ func (d *drv) hostileCredentialStream() {
 			}
 		}
 	})
+}
+
+var digitsRE = regexp.MustCompile(`^\d+$`)
+
+// jvCoq renders a JSON value as the `jv` of coq/Total/Model.v
+func jvCoq(f *coqgen.File, v any) string {
+	switch x := v.(type) {
+	case nil:
+		return "JVNull"
+	case map[string]any:
+		keys := make([]string, 0, len(x))
+		for k := range x {
+			keys = append(keys, k)
+		}
+		sortStrings(keys)
+		var l []string
+		for _, k := range keys {
+			l = append(l, fmt.Sprintf("(%s, %s)", f.Str(k), jvCoq(f, x[k])))
+		}
+		return "(JVObj [" + strings.Join(l, ";") + "])"
+	case []any:
+		var l []string
+		for _, e := range x {
+			l = append(l, jvCoq(f, e))
+		}
+		return "(JVArr [" + strings.Join(l, ";") + "])"
+	default:
+		return "JVScalar"
+	}
 }
